@@ -136,7 +136,14 @@ fn run_op(container: &jubako::reader::Container, model: &Model, op: &Op, who: us
             if region.size().into_u64() != want.len() as u64 {
                 return Err(format!("content {content}: size {} instead of {}", region.size().into_u64(), want.len()));
             }
-            let got = read_with_sizes(&mut region.stream(), want.len(), *size_seed)?;
+            let mut stream = region.stream();
+            let got = read_with_sizes(&mut stream, want.len(), *size_seed)?;
+            // the stream is at its end: a fixed-size read that asks for more must fail, never
+            // deliver bytes that belong to a neighbour
+            let mut more = [0u8; 5];
+            if stream.read_exact(&mut more).is_ok() {
+                return Err(format!("content {content}: read_exact(5) at the end of the stream delivered {:?} instead of failing", more));
+            }
             if got != **want {
                 return Err(format!("content {content}: streamed bytes differ from the stored ones (got {} bytes, first diff at {:?})", got.len(),
                     got.iter().zip(want.iter()).position(|(a, b)| a != b)));
@@ -159,7 +166,22 @@ fn run_op(container: &jubako::reader::Container, model: &Model, op: &Op, who: us
             let want = &model.contents[*content].bytes;
             let cut = region.cut(jubako::Offset::from(*off), jubako::Size::from(*len));
             let mut got = vec![];
-            cut.stream().read_to_end(&mut got).map_err(|e| format!("content {content}: cut stream read error {:?}", e.kind()))?;
+            let mut cs = cut.stream();
+            if *len >= 3 {
+                // a fixed-size record first, then one that is longer than what is left
+                let mut head = vec![0u8; (*len / 2) as usize];
+                cs.read_exact(&mut head).map_err(|e| format!("content {content}: cut stream read_exact error {:?}", e.kind()))?;
+                got.extend_from_slice(&head);
+                let left = *len as usize - head.len();
+                let mut too_long = vec![0u8; left + 1];
+                if cs.read_exact(&mut too_long).is_ok() {
+                    return Err(format!("content {content}: cut [{off}, +{len}): read_exact({}) delivered although only {left} bytes were left", left + 1));
+                }
+                // (after a failed read_exact the position is unspecified: a fresh stream for the rest)
+                cs = cut.stream();
+                got.clear();
+            }
+            cs.read_to_end(&mut got).map_err(|e| format!("content {content}: cut stream read error {:?}", e.kind()))?;
             if got[..] != want[*off as usize..(*off + *len) as usize] {
                 return Err(format!("content {content}: cut [{off}, +{len}) stream differs from the stored bytes"));
             }
@@ -362,7 +384,7 @@ impl TCheck for C07 {
             Tier::Thorough => 160,
         }
     }
-    fn prepare(&self, seed: u64, _tier: Tier, work: u64, scratch: &Path) -> Prepared {
+    fn prepare(&self, seed: u64, tier: Tier, work: u64, scratch: &Path) -> Prepared {
         let mut rng = Rng::derive(seed, "c07-work", work);
         let logical = reader_logical(&mut rng, &[Comp::Zstd(3), Comp::Lz4(3), Comp::Lzma(1), Comp::Zstd(3)]);
         // one work in eight holds a compressed cluster far larger than any codec's input buffer
@@ -390,6 +412,21 @@ impl TCheck for C07 {
         // content above 16 MiB
         let mib_pair = work % 8 == 2;
         let above_16mib = work == 5;
+        // (thorough tier) one compressed content above 256 MiB, two schedules
+        let above_256mib = tier == Tier::Thorough && work == 7;
+        if above_256mib {
+            let pack = logical.contents.first().map(|c| c.pack).unwrap_or(1);
+            let len = (260usize << 20) + rng.range(1, 1 << 20) as usize;
+            logical.contents.insert(
+                0,
+                gen::ContentSpec {
+                    bytes: Arc::new(gen::gen_bytes(&mut rng, 9980, len, gen::Flavor::Constant)),
+                    hint: gen::Hint::Yes,
+                    src: SrcKind::Cursor,
+                    pack,
+                },
+            );
+        }
         if mib_pair || above_16mib {
             let pack = logical.contents.first().map(|c| c.pack).unwrap_or(1);
             let lens: Vec<usize> = if above_16mib {
@@ -420,7 +457,7 @@ impl TCheck for C07 {
         let hooks = crate::exec::current_hooks();
         let image = Arc::new(build_image(&hooks, logical.clone(), &dir, &create_knobs, simcore::prng::hash_label(seed, "c07-img", work)));
         let knobs = vec![
-            ("decode_chunk", if mib_pair || above_16mib { 65536 } else if big { *rng.pick(&[4096u64, 65536]) } else { *rng.pick(&[1u64, 7, 64, 4096]) }),
+            ("decode_chunk", if above_256mib { 1 << 20 } else if mib_pair || above_16mib { 65536 } else if big { *rng.pick(&[4096u64, 65536]) } else { *rng.pick(&[1u64, 7, 64, 4096]) }),
             ("cluster_cache", if mib_pair { 40 } else { *rng.pick(&[1u64, 2, 3, 40]) }),
             ("decomp_pool_size", if mib_pair { *rng.pick(&[1u64, 2]) } else { *rng.pick(&[1u64, 2, 8]) }),
             ("stream_short_read_pm", *rng.pick(&[0u64, 0, 250])),
@@ -476,7 +513,7 @@ impl TCheck for C07 {
                 );
             }
         }
-        let desc = json!({"failing_reads": read_faults, "image": gen::describe(&logical), "readers": readers, "big_compressed_cluster": big, "two_MiB_sized_compressed_clusters": mib_pair, "content_above_16_MiB": above_16mib,
+        let desc = json!({"failing_reads": read_faults, "image": gen::describe(&logical), "readers": readers, "big_compressed_cluster": big, "two_MiB_sized_compressed_clusters": mib_pair, "content_above_16_MiB": above_16mib, "content_above_256_MiB": above_256mib,
                           "ops": ops.iter().map(|o| o.iter().map(|x| format!("{x:?}")).collect::<Vec<_>>()).collect::<Vec<_>>(),
                           "hot_contents": hot});
         let ops = Arc::new(ops);
@@ -536,6 +573,7 @@ impl TCheck for C07 {
             hard_fault: false,
             one_cpu: false,
             post: None,
+            max_scheds: if above_256mib { Some(2) } else { None },
         }
     }
     fn history_oracle(&self, events: &[Event], _report: &BodyReport) -> Vec<String> {
